@@ -4,8 +4,15 @@
 (* PriorityQueue (property C35).                                           *)
 (*                                                                         *)
 (* One action = one public call (or one clock advance, or one cancel of a  *)
-(* pending future) followed by running the event loop to quiescence at the *)
-(* current instant.  put / put_nowait calls are numbered 1..NP in call     *)
+(* pending future).  The model is sequential: whether the event loop runs  *)
+(* between two calls is not part of a behaviour, so every placement of     *)
+(* loop iterations between the calls of a behaviour must produce the same  *)
+(* observations (the S2C replay runs each behaviour settled after every    *)
+(* call, with whole stretches of calls inside ONE loop iteration, and with *)
+(* the calls that follow an Advance performed in the very iteration in     *)
+(* which the timers fire, or one / two iterations later).  Only a call     *)
+(* with timeout 0 needs the loop to run before the next call.              *)
+(* put / put_nowait calls are numbered 1..NP in call                       *)
 (* order, get / get_nowait calls 1..NG, join calls 1..NJ.  The item of put *)
 (* call p is the pair <<priority, p>>: items are distinguishable, and for  *)
 (* the priority queue the pair order (priority first, then serial) is the  *)
